@@ -804,4 +804,21 @@ theorem gather_dependees {e : Env} {inp size out d : Nat} {x : TokId} {k : Tag} 
     · exact ⟨g, hg, Or.inl rfl⟩
     · exact ⟨g, hg, Or.inr ⟨t, ht, hk, rfl⟩⟩
 
+/-! ## j. example workflows used in `SFV/Props/C07Net.lean` -/
+
+/-- source list → scatter → transformer → gather -/
+def exChain : Spec :=
+  { nports := 5, sources := [(0, .list [.int 1, .int 2, .int 3])], closed := [],
+    nodes := [.scatter 0 1 2, .tf (.add 10) [1] [3], .gather 3 2 4 1] }
+
+/-- a forced gather: the size port 5 is closed and stays empty, the edge from it is recorded all the same -/
+def exForced : Spec :=
+  { nports := 7, sources := [(0, .list [.int 1, .int 2])], closed := [5],
+    nodes := [.scatter 0 1 2, .gather 1 5 6 1] }
+
+/-- dot product of two branches: every combination is linked to one token per input port, on both outputs -/
+def exDotProv : Spec :=
+  { nports := 7, sources := [(0, .list [.int 1, .int 2])], closed := [],
+    nodes := [.scatter 0 1 2, .tf (.add 10) [1] [3], .tf .sum [1] [4], .dot [3, 4] [5, 6]] }
+
 end SFV.Net
